@@ -282,7 +282,9 @@ fn check_one<C: Codec>(
     // state snapshots between polls
     if let Ok((h, _)) = framing {
         for (pos, is_header, idx) in &r.states {
-            let ok = if *pos < h { *is_header } else { *is_header && *pos == h || (!*is_header && *idx == pos - h) };
+            // necessary for any implementation over these public state types: the header cannot be
+            // complete before its bytes arrived, and the body cannot hold more than was delivered
+            let ok = if *pos < h { *is_header } else { *is_header || *idx <= pos - h };
             if !ok {
                 out.violate(
                     sig(c, s, "state-snapshot"),
@@ -293,7 +295,12 @@ fn check_one<C: Codec>(
         }
     }
     if let Some(b) = base {
-        if r.fe != b.fe {
+        // "the same result": the future's output. Bytes consumed on an *error* are not part of it.
+        let same = match (&r.fe, &b.fe) {
+            (Fe::Err { e: x, .. }, Fe::Err { e: y, .. }) => x == y,
+            (x, y) => x == y,
+        };
+        if !same {
             out.violate(
                 sig(c, s, &format!("schedule-dependent:{}->{}", fe_class::<C>(&b.fe), fe_class::<C>(&r.fe))),
                 format!(
